@@ -23,9 +23,9 @@ PROP = {
         "rule": "cases from one PRNG (VERIF_SEED): 1-4 initial subscribers with send buffers 1-4, 5-40 steps mixing sends, consumes of 1-3 items, "
                 "late subscribes, receiver drops, with four consumption-rate classes; the quiescence barrier runs after every step in two "
                 "thirds of the cases and after a random half of the steps otherwise; every 8th case is repeated with the receivers "
-                "shipped over a chmux connection and random transport stalls (signature prefix remote:, oracle only; half of them end with a "
-                "subscriber dropped at the remote endpoint whose failure is noticed by a send while the others lag; send must not fail while a "
-                "subscriber is alive); every 16th case lets 2-4 OS threads send 20-120 values each concurrently on clones of the sender "
+                "shipped over a chmux connection and random transport stalls (signature prefix remote:, oracle only; plus a dedicated pattern with small port buffers at the "
+                "receiving endpoint: the other subscribers never consume and lag, one subscriber keeps up and is then dropped at the remote "
+                "endpoint, its failure is noticed by a send at which all others lag; send must not fail while a subscriber is alive); every 16th case lets 2-4 OS threads send 20-120 values each concurrently on clones of the sender "
                 "(value type with a slow Clone; subscribers with room for everything must obtain every value, per-thread order kept, every "
                 "send Ok -- send is linearizable); a case is "
                 "non-trivial if a subscriber lagged, was dropped or joined late; distinct = distinct input",
